@@ -104,7 +104,8 @@ def handle (j : Json) : R Json := do
       | .ok a, .ok b, .ok x, .ok y =>
           let p : RAddr := ⟨a, x⟩
           let q : RAddr := ⟨b, y⟩
-          pure (jOk [("eq", Json.bool (addrEqR p q)), ("hk", Json.bool (hashKeyR p == hashKeyR q)),
+          let aware := match fldBool j "aware" with | .ok b => b | .error _ => false
+          pure (jOk [("eq", Json.bool (addrEqR p q)), ("hk", Json.bool (tupleR aware p == tupleR aware q)),
                      ("br", Json.str (if addrEqR p q then "eqr" else "ner"))])
       | .error e, _, _, _ => pure (jErr e)
       | _, .error e, _, _ => pure (jErr e)
